@@ -94,16 +94,22 @@ def native_plan(tier):
     return plan
 
 
-def run_unit(tier, only_prefix=None):
-    t0 = time.time()
-    out = {'inconclusive': [], 'kani': None, 'native': {}, 'native_failures': [], 'stmt': None}
+def prepare_crate():
+    """aggcheck instantiated against $VERIF_REPO with the freshly extracted percentile index statements"""
     ext, fn_text, expand_s = extract_p_index_statement()
-    out['stmt'] = ' '.join(ext['kept']) + ' -> ' + ext['index_expr']
-    out['extraction'] = ext
-    out['expand_s'] = expand_s
     crate = kani.instantiate('aggcheck')
     with open(os.path.join(crate, 'src', 'p_index_extracted.rs'), 'w') as f:
         f.write(P_INDEX_TEMPLATE % ('\n'.join('   ' + k for k in ext['kept']), ext['index_expr']))
+    return crate, ext, expand_s
+
+
+def run_unit(tier, only_prefix=None):
+    t0 = time.time()
+    out = {'inconclusive': [], 'kani': None, 'native': {}, 'native_failures': [], 'stmt': None}
+    crate, ext, expand_s = prepare_crate()
+    out['stmt'] = ' '.join(ext['kept']) + ' -> ' + ext['index_expr']
+    out['extraction'] = ext
+    out['expand_s'] = expand_s
     out['crate'] = crate
     hs = list(KANI_QUICK) + (KANI_THOROUGH if tier == 'thorough' else [])
     plan = native_plan(tier)
